@@ -77,6 +77,9 @@ func (c *ColAuto) Infer(t ColumnType) error {
 		c.Data = new(ColDate)
 	case "Map(String,String)":
 		c.Data = NewMap[string, string](new(ColStr), new(ColStr))
+	case "Map(String, String)":
+		// As printed by ColMap.Type and by the server.
+		c.Data = NewMap[string, string](new(ColStr), new(ColStr))
 	case ColumnTypeUUID:
 		c.Data = new(ColUUID)
 	default:
